@@ -117,8 +117,9 @@ Pick(q) ==
          merged == [t EXCEPT !.ctxs = ctxs, !.af = af, !.mon = mon, !.monseq = Concat([i \in 1..Len(all) |-> all[i].monseq])]
          exec == t.type = "HookRun" /\ ShouldRun(t)
          skipSync == t.type = "HookRun" /\ ~ShouldRun(t)
-         \* a Synchronization execution reads its snapshots when it starts: what was held back so far is part of them
-         snapPairs == IF exec /\ IsSync(t) THEN mon ELSE {}
+         \* an execution that carries monitors of Synchronization tasks (also a retried, group-compacted one that no longer
+         \* starts with a Synchronization context) drops what those monitors held back so far, then reads its snapshots
+         snapPairs == IF exec THEN mon ELSE {}
          replay == IF skipSync THEN UnlockTasks(merged) ELSE <<>>
          kept == <<merged>> \o SubSeq(queues[q], 2 + Len(fs), Len(queues[q]))
      IN /\ run' = [run EXCEPT ![q] = [task |-> merged, all |-> all, exec |-> exec,
